@@ -148,8 +148,11 @@ pub fn run(args: &[String]) {
         }
       }
       for z in zs {
-        let v = ap.integration_constant(z, l_ref);
-        emit(json!({"kind": "interp", "values": fxs(&values), "z": fx(z), "v": fx(v)}));
+        let ap2 = ap.clone();
+        match guarded(move || ap2.integration_constant(z, l_ref)) {
+          Ok(v) => emit(json!({"kind": "interp", "values": fxs(&values), "z": fx(z), "v": fx(v)})),
+          Err(e) => emit(json!({"kind": "interp_panic", "values": fxs(&values), "z": fx(z), "msg": e})),
+        }
       }
     }
   }
@@ -286,16 +289,18 @@ pub fn run(args: &[String]) {
     let back: Apodization = cfg.clone().into();
     let js = serde_json::to_value(&ap).unwrap_or(Value::Null);
     let from_js: Result<Apodization, _> = serde_json::from_value(js.clone());
-    let same_window = {
-      let z = rng.range(-1., 1.);
-      ap.integration_constant(z, l_ref) == back.integration_constant(z, l_ref)
-    };
+    let zw = rng.range(-1., 1.);
+    let (w1, w2) = (ap.integration_constant(zw, l_ref), back.integration_constant(zw, l_ref));
     let rel = match (&ap, &back) {
       (Apodization::Gaussian { fwhm: f1 }, Apodization::Gaussian { fwhm: f2 }) => ((*(*f1 / M) - *(*f2 / M)) / *(*f1 / M)).abs(),
       (a, b) => if a == b { 0. } else { 1. },
     };
-    emit(json!({"kind": "cfg", "ap": apod_json(&ap), "cfg_kind": js.get("kind").cloned().unwrap_or(Value::Null),
-      "kind_str": ap.kind(), "back_kind": back.kind(), "rel_err": fx(rel), "same_window": same_window,
+    let fwhm_um = match &cfg {
+      ApodizationConfig::Gaussian { fwhm_um } => fx(*fwhm_um),
+      _ => Value::Null,
+    };
+    emit(json!({"kind": "cfg", "ap": apod_json(&ap), "cfg_kind": js.get("kind").cloned().unwrap_or(Value::Null), "fwhm_um": fwhm_um,
+      "kind_str": ap.kind(), "back_kind": back.kind(), "rel_err": fx(rel), "window_value": fx(w1), "window_value_back": fx(w2),
       "json_roundtrip_kind": from_js.map(|a| a.kind().to_string()).unwrap_or("Err".to_string())}));
   }
   for (spell, expect) in [("off", "Off"), ("none", "Off"), ("None", "Off"), ("Off", "Off"), ("bartlett", "Bartlett"), ("Bartlett", "Bartlett"),
